@@ -123,7 +123,9 @@ def _merge_conds(conds: List[Dict[str, bool]]):
 class Analyzer:
     """Analyse a set of units (functions, methods, closures) of the SDK."""
 
-    def __init__(self, units: Dict[str, Tuple[ast.AST, object]], by_name: Dict[str, List[str]]):
+    def __init__(self, units: Dict[str, Tuple[ast.AST, object]], by_name: Dict[str, List[str]], mode: str = "register", ctors: Tuple[str, ...] = ()):
+        self.mode = mode  # "register": active registers; "handle": activated qubit handles (constructor = acquire, `.active = False` = release)
+        self.ctors = ctors
         self.units = units  # qualname -> (fn node, module)
         self.by_name = by_name  # simple method name -> [qualnames]
         self.summaries: Dict[str, Summary] = {}
@@ -181,6 +183,7 @@ class Analyzer:
         self.params = set(A.param_names(fn))
         self.reassigned = set(A.assigned_names(fn)) & self.params
         self._rid = 0
+        self._ret_pos: Dict[int, Tuple[int, ...]] = {}
         self._site_count: Dict[str, int] = {}
         self._site_of_node: Dict[int, str] = {}
         st = State()
@@ -221,10 +224,23 @@ class Analyzer:
         facts.update(extra or {})
         r = Res(self._rid, self.site(node, desc), node, facts=tuple(sorted(facts.items())))
         st.res[r.rid] = r
+        if var and getattr(self, "_keep_prev", False) and var in st.var:
+            st.lists.setdefault(var, set()).add(st.var[var])
         if var:
             st.var[var] = r.rid
             st.null[var] = "nonnull"
         return r.rid
+
+    def _deactivated_name(self, st) -> Optional[str]:
+        """handle mode: `v.active = False` / `v._deactivate()` -> v"""
+        if self.mode != "handle":
+            return None
+        if isinstance(st, ast.Assign) and len(st.targets) == 1 and isinstance(st.targets[0], ast.Attribute) and st.targets[0].attr == "active" \
+                and isinstance(st.targets[0].value, ast.Name) and isinstance(st.value, ast.Constant) and st.value.value is False:
+            return st.targets[0].value.id
+        if isinstance(st, ast.Expr) and isinstance(st.value, ast.Call) and isinstance(st.value.func, ast.Attribute) and st.value.func.attr == "_deactivate" and isinstance(st.value.func.value, ast.Name):
+            return st.value.func.value.id
+        return None
 
     # -- statements -------------------------------------------------------
     def block(self, stmts, states: List[State]) -> List[State]:
@@ -242,6 +258,10 @@ class Analyzer:
 
     def stmt(self, st, s: State) -> List[State]:
         if isinstance(st, (ast.FunctionDef, ast.AsyncFunctionDef, ast.ClassDef, ast.Pass, ast.Import, ast.ImportFrom, ast.Global, ast.Nonlocal)):
+            return [s]
+        dn = self._deactivated_name(st)
+        if dn is not None:
+            self.release_expr(ast.Name(id=dn, ctx=ast.Load()), s, st)
             return [s]
         if isinstance(st, ast.Expr):
             if isinstance(st.value, (ast.Yield, ast.YieldFrom)):
@@ -292,7 +312,8 @@ class Analyzer:
             return outs
         if isinstance(st, ast.Return):
             rq = self.resolve(st.value) if isinstance(st.value, ast.Call) else None
-            if isinstance(st.value, ast.Call) and (A.call_name(st.value) == ACQ_BASE or (rq is not None and self.summaries[rq].returns_owned)):
+            is_acq = (isinstance(st.value, ast.Call) and A.call_name(st.value) == ACQ_BASE) if self.mode == "register" else (isinstance(st.value, ast.Call) and isinstance(st.value.func, ast.Name) and st.value.func.id in self.ctors)
+            if isinstance(st.value, ast.Call) and (is_acq or (rq is not None and self.summaries[rq].returns_owned)):
                 tgt = ast.Name(id="__ret__", ctx=ast.Store())
                 synth = ast.Return(value=ast.Name(id="__ret__", ctx=ast.Load()))
                 for o in self.assign_call(tgt, st.value, s):
@@ -317,6 +338,11 @@ class Analyzer:
         return [s]
 
     def for_loop(self, st, s: State) -> List[State]:
+        if self.mode == "handle" and isinstance(st.iter, ast.Name) and isinstance(st.target, ast.Name):
+            top = [b for b in st.body if self._deactivated_name(b) == st.target.id]
+            if top:
+                self.release_expr(st.iter, s, st)
+                return [s]
         # list-release idiom: for r in L: remove_active_register(r)
         if isinstance(st.iter, ast.Name) and isinstance(st.target, ast.Name) and st.iter.id in s.lists:
             rel = [c for b in st.body for c in ast.walk(b) if isinstance(c, ast.Call) and A.call_name(c) == REL and c.args and isinstance(c.args[0], ast.Name) and c.args[0].id == st.target.id]
@@ -427,7 +453,12 @@ class Analyzer:
                 s.popped[tname] = table
                 s.var.pop(tname, None)
             return [s]
-        if name == ACQ_BASE and isinstance(call.func, ast.Attribute):
+        if self.mode == "handle":
+            if isinstance(call.func, ast.Name) and call.func.id in self.ctors:
+                self.expr_effects_args(call, s)
+                self.new_res(s, tname, call, call.func.id + "(...)")
+                return [s]
+        elif name == ACQ_BASE and isinstance(call.func, ast.Attribute):
             act = A.get_arg(call, 0, "activate")
             if act is None or (isinstance(act, ast.Constant) and not act.value):
                 if tname:
@@ -475,6 +506,8 @@ class Analyzer:
         """callee returns owned resources at some positions under conditions on its parameters"""
         short = q.split(".")[-1]
         outs = [s]
+        bound_now: Set[str] = set()
+        synthetic = isinstance(target, ast.Name) and target.id == "__ret__"
         for pos, conds in sorted(sm.returns_owned.items()):
             # target variables for these positions (all bound to the same register)
             tvs = []
@@ -484,8 +517,11 @@ class Analyzer:
                         tvs.append(target.id)
                 elif isinstance(target, (ast.Tuple, ast.List)) and p_ < len(target.elts) and isinstance(target.elts[p_], ast.Name):
                     tvs.append(target.elts[p_].id)
+            if synthetic:
+                tvs = ["__ret__"]
             tv = tvs[0] if tvs else None
             others = tvs[1:]
+            self._keep_prev = bool(tv) and tv in bound_now
             nxt = []
             for st in outs:
                 # translate conditions to the caller
@@ -536,12 +572,26 @@ class Analyzer:
                         nxt.append(b)
             for st in nxt:
                 if tv and tv in st.var:
+                    new_rid = st.var[tv]
+                    if synthetic:
+                        self._ret_pos[new_rid] = pos
                     for o in others:
-                        st.var[o] = st.var[tv]
-                        st.null[o] = "nonnull"
+                        if o in bound_now and o in st.var and st.var[o] != new_rid:
+                            st.lists.setdefault(o, set()).update({st.var[o], new_rid})
+                        else:
+                            st.var[o] = new_rid
+                            st.null[o] = "nonnull"
+                    if tv in bound_now:
+                        # several returned registers/handles land in the same variable (a list): keep them all
+                        st.lists.setdefault(tv, set()).add(new_rid)
                 else:
                     for o in others:
-                        st.var.pop(o, None)
+                        if o not in bound_now:
+                            st.var.pop(o, None)
+            self._keep_prev = False
+            if tv:
+                bound_now.add(tv)
+            bound_now.update(others)
             outs = nxt
         return outs
 
@@ -608,9 +658,22 @@ class Analyzer:
 
     def release_expr(self, e, s: State, node):
         if isinstance(e, ast.Name):
+            if e.id in s.lists and e.id not in s.var:
+                for rid in s.lists[e.id]:
+                    if s.res[rid].status == "owned":
+                        s.res[rid].status = "released"
+                s.lists[e.id] = set()
+                if e.id in self.params and e.id not in self.reassigned:
+                    s.rel_params.add(e.id)
+                return
             if e.id in s.var:
                 r = s.res[s.var[e.id]]
                 r.status = "released"
+                for rid in s.lists.get(e.id, set()):
+                    if s.res[rid].status == "owned":
+                        s.res[rid].status = "released"
+                if e.id in self.params and e.id not in self.reassigned:
+                    s.rel_params.add(e.id)
                 return
             if e.id in s.popped:
                 self.summary.releases_from_tables.add(s.popped[e.id])
@@ -628,6 +691,24 @@ class Analyzer:
             return
         for c in [n for n in A.walk_no_nested(e) if isinstance(n, ast.Call)]:
             name = A.call_name(c)
+            if self.mode == "handle":
+                if name == "append" and isinstance(c.func, ast.Attribute) and isinstance(c.func.value, ast.Name) and c.args and isinstance(c.args[0], ast.Name):
+                    lst, v = c.func.value.id, c.args[0].id
+                    if v in s.var:
+                        s.lists.setdefault(lst, set()).add(s.var[v])
+                    continue
+                if isinstance(c.func, ast.Name) and c.func.id in self.ctors and c is e and discard:
+                    self.new_res(s, None, c, c.func.id + "(...) (discarded)")
+                    continue
+                q = self.resolve(c) if isinstance(c.func, ast.Attribute) else None
+                if q is not None:
+                    self.calls += 1
+                    sm = self.summaries[q]
+                    self.apply_releases(c, sm, s)
+                    if sm.returns_owned and c is e and discard:
+                        for pos, conds in sm.returns_owned.items():
+                            self.new_res(s, None, c, f"result of {q.split('.')[-1]} (discarded)")
+                continue
             if name == REL and c.args:
                 self.release_expr(c.args[0], s, c)
             elif name == ADD and c.args and isinstance(c.func, ast.Attribute):
@@ -735,7 +816,7 @@ class Analyzer:
                         returned[rid] = tuple(sorted(set(returned.get(rid, ()) + (i,))))
             else:
                 for rid in self.rids_in(v, s):
-                    returned[rid] = (-1,)
+                    returned[rid] = self._ret_pos.get(rid, (-1,)) if isinstance(v, ast.Name) and v.id == "__ret__" else (-1,)
         for rid, r in s.res.items():
             if r.status != "owned":
                 continue
